@@ -171,6 +171,7 @@ fn c09_reset_non_root_count() {
 /// call started below the cap.  So over all of I(h) the only failing check must be the documented
 /// panic (`returns => refs < MAX`), and c09_inc_ref_count_below_cap shows `refs < MAX => no panic`.
 // EXPECT-PANIC: too many references to a gc allocation
+// ALSO: C02
 #[kani::proof_for_contract(GcHeader::inc_ref_count)]
 #[kani::should_panic]
 fn c09_inc_ref_count() {
@@ -183,6 +184,7 @@ fn c09_inc_ref_count() {
 }
 
 // FN: GcHeader::inc_ref_count
+// ALSO: C02
 #[kani::proof]
 fn c09_inc_ref_count_below_cap() {
     let h = any_header();
@@ -194,6 +196,7 @@ fn c09_inc_ref_count_below_cap() {
     assert!(view(&h).refs <= MAX);
 }
 
+// ALSO: C02
 #[kani::proof_for_contract(GcHeader::dec_ref_count)]
 fn c09_dec_ref_count() {
     let h = any_raw_header();
